@@ -1,7 +1,7 @@
 """Implementation side of C17: real AddrRange(**kw) and .set_idx(k)."""
 import json
 import sys
-from harness.impl import emit
+from harness.impl import emit, protect_stdout
 from floogen.model.routing import AddrRange
 
 
@@ -10,6 +10,7 @@ def dump(r):
 
 
 def main():
+    protect_stdout()
     for line in sys.stdin:
         c = json.loads(line)
         kw = {k: c[k] for k in ("start", "end", "size", "base", "idx") if k in c}
